@@ -99,7 +99,7 @@ def mkPeer (now : Tick) (i : Identity) : RawEntry → Except Err Peer
   | .notMapping => .error .typeError
   | .record r =>
     if r.identityKey then .error .typeError else
-    match (match r.lifetime with | none => .ok 60 | some v => pyInt v) with
+    match (match r.lifetime with | none => Except.ok (60 : Int) | some v => pyInt v) with
     | .error e => .error e
     | .ok l =>
       match r.lastseen with
@@ -177,6 +177,20 @@ def decideEv (u : Int) (status : List (Identity × RawEntry)) (me : Identity) (m
   | .error e => .error e
   | .ok ps => decideP u ps me myPrio autoclean toggle now now2
 
+/-- what one call does, from the top: a peering object of another name is ignored silently; a `status`
+    that is not a mapping fails at `.items()`. -/
+inductive Outcome where
+  | ignored
+  | done (d : Decision)
+  deriving Repr, DecidableEq
+
+def processEvent (u : Int) (nameOk : Bool) (status : Option (List (Identity × RawEntry))) (me : Identity)
+    (myPrio : Int) (autoclean : Bool) (toggle : Option Bool) (now now2 : Tick) : Except Err Outcome :=
+  if !nameOk then .ok .ignored else
+  match status with
+  | none => .error .attrError
+  | some st => (decideEv u st me myPrio autoclean toggle now now2).map .done
+
 /-! ### keep-alive and touch -/
 
 /-- `max(1, min(lifetime, max(1, lifetime - jitter)))` seconds; `jitter = random.randint(5, 10)`. -/
@@ -193,8 +207,8 @@ def Rec.dead (u : Int) (now : Tick) (r : Rec) : Bool := decide (r.deadline u ≤
 def Rec.toPeer (i : Identity) (r : Rec) : Peer :=
   { id := i, prio := some r.priority, lifetime := r.lifetime, lastseen := r.lastseen }
 def Rec.toRaw (r : Rec) : RawEntry :=
-  .record { priority := some (.num r.priority), lifetime := some (.num r.lifetime), lastseen := .at r.lastseen,
-         identityKey := false }
+  .record { priority := some (J.num r.priority), lifetime := some (J.num r.lifetime),
+            lastseen := LastSeen.at r.lastseen, identityKey := false }
 
 /-- `touch()`: `{identity: None if peer.is_dead else peer.as_dict()}` with `lastseen = now`. -/
 def touchVal (u : Int) (prio lifetime : Int) (now : Tick) : Option Rec :=
